@@ -434,7 +434,7 @@ Definition fq_position (r : fq) : nat * nat := (qline r, qbyte r).
 Definition fq_seek (ffuel : nat) (r : fq) (line byte_ : nat) : fq * fq_out :=
   let offset := (Z.of_nat byte_ - Z.of_nat (qbyte r))%Z in
   let pos := (Z.of_nat (p0 r) + offset)%Z in
-  if ((0 <=? pos) && (pos <? Z.of_nat (length (qbuf r))))%Z then
+  if ((0 <=? pos) && (pos <? Z.of_nat (length (qbuf r))))%Z && negb (fq_state_eqb (qst r) QNew) then     (* a New reader never takes the shortcut: its buffer, if any, is the partial result of a failed first refill *)
     let p := Z.to_nat pos in
     (qset_p1 (qset_p0 (qset_st (qset_inc (qset_byte (qset_line r line) byte_) None) QPositioned) p) 0,
      QOOk)
